@@ -1000,7 +1000,7 @@ class SingleLUTFormatFunction(FormatFunction):
             raise ValueError('The length of subscript and raw_shape must match')
 
         reverse_axes = () if self.reverse_axes is None else self.reverse_axes
-        transpose_axes = tuple(range(len(self.formatted_shape))) if self.transpose_axes is None else \
+        transpose_axes = tuple(range(len(self.raw_shape))) if self.transpose_axes is None else \
             self.transpose_axes
 
         # we will reorder from raw order into formatted order, using the transpose
@@ -1010,7 +1010,7 @@ class SingleLUTFormatFunction(FormatFunction):
         for i, index in enumerate(transpose_axes):
             # raw order @ index corresponds to formatted order @ i
             rev = (index in reverse_axes)
-            shape_limit = self.formatted_shape[index]  # also self.raw_shape[i]
+            shape_limit = self.raw_shape[index]  # also self.formatted_shape[i]
             out.append(reformat_slice(subscript[index], shape_limit, rev))
         if self.raw_ndim < self.formatted_ndim:
             # 2-d lookup table
